@@ -8,27 +8,47 @@ const M: usize = 4; // free space bound
 const CL: usize = 3; // candidate length bound
 const NC: usize = 3; // candidates
 
+/// Up to three candidate continuations.  Deliberately three separate arrays:
+/// Kani 0.68 mis-models `&nested[k]` unsized to `&[u8]` (DESIGN.md, tool anomalies).
 pub struct Cands {
-    pub c: [[u8; CL]; NC],
+    pub c0: [u8; CL],
+    pub c1: [u8; CL],
+    pub c2: [u8; CL],
     pub l: [usize; NC],
     pub n: usize,
 }
 
+impl Cands {
+    pub fn get(&self, k: usize) -> &[u8; CL] {
+        if k == 0 {
+            &self.c0
+        } else if k == 1 {
+            &self.c1
+        } else {
+            &self.c2
+        }
+    }
+    pub fn text(&self, k: usize) -> &str {
+        let a = self.get(k);
+        unsafe { core::str::from_utf8_unchecked(&a[..self.l[k]]) }
+    }
+}
+
 pub fn any_cands() -> Cands {
-    let c: [[u8; CL]; NC] = kani::any();
+    let c0: [u8; CL] = kani::any();
+    let c1: [u8; CL] = kani::any();
+    let c2: [u8; CL] = kani::any();
     let l: [usize; NC] = kani::any();
     let n: usize = kani::any();
     kani::assume(n <= NC);
-    let mut k = 0;
-    while k < NC {
-        kani::assume(l[k] <= CL);
-        kani::assume(editor_inv(&c[k], 0, l[k]));
-        k += 1;
-    }
+    kani::assume(l[0] <= CL && l[1] <= CL && l[2] <= CL);
+    kani::assume(editor_inv(&c0, 0, l[0]));
+    kani::assume(editor_inv(&c1, 0, l[1]));
+    kani::assume(editor_inv(&c2, 0, l[2]));
     // the same name declared twice is outside the statement
-    kani::assume(!(n >= 2 && same(&c[0], l[0], &c[1], l[1])));
-    kani::assume(!(n >= 3 && (same(&c[0], l[0], &c[2], l[2]) || same(&c[1], l[1], &c[2], l[2]))));
-    Cands { c, l, n }
+    kani::assume(!(n >= 2 && same(&c0, l[0], &c1, l[1])));
+    kani::assume(!(n >= 3 && (same(&c0, l[0], &c2, l[2]) || same(&c1, l[1], &c2, l[2]))));
+    Cands { c0, c1, c2, l, n }
 }
 
 fn same(a: &[u8; CL], al: usize, b: &[u8; CL], bl: usize) -> bool {
@@ -59,7 +79,7 @@ pub fn lcp(cs: &Cands) -> usize {
             let mut stop = false;
             while i < CL {
                 if !stop {
-                    if i < len && i < cs.l[k] && cs.c[0][i] == cs.c[k][i] {
+                    if i < len && i < cs.l[k] && cs.c0[i] == cs.get(k)[i] {
                         p = i + 1;
                     } else {
                         stop = true;
@@ -70,7 +90,7 @@ pub fn lcp(cs: &Cands) -> usize {
             // back off to a scalar boundary of candidate 0
             let mut j = 0;
             while j < CL {
-                if p > 0 && p < cs.l[0] && is_cont(cs.c[0][p]) {
+                if p > 0 && p < cs.l[0] && is_cont(cs.c0[p]) {
                     p -= 1;
                 }
                 j += 1;
@@ -105,7 +125,7 @@ fn merge_body(tight: bool) {
     let mut k = 0;
     while k < NC {
         if k < cs.n {
-            ac.merge_autocompletion(unsafe { core::str::from_utf8_unchecked(&cs.c[k][..cs.l[k]]) });
+            ac.merge_autocompletion(cs.text(k));
         }
         k += 1;
     }
@@ -126,7 +146,7 @@ fn merge_body(tight: bool) {
             let mut i = 0;
             while i < CL {
                 if i < ab.len() {
-                    assert!(ab[i] == cs.c[0][i]);
+                    assert!(ab[i] == cs.c0[i]);
                 }
                 i += 1;
             }
@@ -139,8 +159,8 @@ fn merge_body(tight: bool) {
             }
         }
     }
-    kani::cover!(tight || (cs.n == 3 && want == 2 && cs.l[0] == 3 && cs.c[0][0] >= 0x80), "three candidates sharing a 2-byte scalar");
-    kani::cover!(tight || (cs.n == 2 && want == 0 && cs.l[0] > 0 && cs.l[1] > 0 && cs.c[0][0] == cs.c[1][0]), "shared lead byte but different scalars");
+    kani::cover!(tight || (cs.n == 3 && want == 2 && cs.l[0] == 3 && cs.c0[0] >= 0x80), "three candidates sharing a 2-byte scalar");
+    kani::cover!(tight || (cs.n == 2 && want == 0 && cs.l[0] > 0 && cs.l[1] > 0 && cs.c0[0] == cs.c1[0]), "shared lead byte but different scalars");
     kani::cover!(tight || (cs.n == 1 && cs.l[0] == m && m > 0), "single candidate fills the space exactly");
     kani::cover!(tight || (cs.n == 2 && cs.l[0] == 0), "one name fully typed, another longer");
     kani::cover!(!tight || (cs.n == 2 && cs.l[0] > m && cs.l[1] <= m && cs.l[1] > 0), "first does not fit, second does");
@@ -239,7 +259,7 @@ fn c11_editor_autocompletion() {
             let mut k = 0;
             while k < NC {
                 if k < cs.n {
-                    ac.merge_autocompletion(unsafe { core::str::from_utf8_unchecked(&cs.c[k][..cs.l[k]]) });
+                    ac.merge_autocompletion(cs.text(k));
                 }
                 k += 1;
             }
@@ -274,7 +294,7 @@ fn c11_editor_autocompletion() {
             let mut i = 0;
             while i < NMAX {
                 if i >= req_end && i < req_end + want {
-                    assert!(nb[i] == cs.c[0][i - req_end]);
+                    assert!(nb[i] == cs.c0[i - req_end]);
                 }
                 i += 1;
             }
@@ -291,7 +311,7 @@ fn c11_editor_autocompletion() {
                 let mut i = 0;
                 while i < NMAX {
                     if i >= req_end && i < nv {
-                        assert!(nb[i] == cs.c[0][i - req_end]);
+                        assert!(nb[i] == cs.c0[i - req_end]);
                     }
                     i += 1;
                 }
@@ -314,7 +334,7 @@ fn c11_merge_twin() {
     let cs = any_cands();
     let mut ac = Autocompletion::new(&mut backing[..]);
     if cs.n >= 1 {
-        ac.merge_autocompletion(unsafe { core::str::from_utf8_unchecked(&cs.c[0][..cs.l[0]]) });
+        ac.merge_autocompletion(cs.text(0));
     }
     assert!(ac.autocompleted().is_none(), "twin: must be reported as FAILED");
 }
